@@ -103,7 +103,7 @@ REV_LOCAL = (-1, -1, 1)          # ldx, ldy, lrz
 REV_DIAG = (1, 1, -1, -1)         # axial stress, shear, bending moment, top fibre (Proofs/PlacementProofs.v recover_reversal_R)
 
 
-def compare(oA, oB, tr, tolU, what, max_fails=4, check_diagrams=True):
+def compare(oA, oB, tr, tolU, what, max_fails=4, check_diagrams=True, merged_out=None):
     """Returns failure strings. tolU: displacement tolerance (already combined for both runs); a pair
     (translations, rotations) when the two differ (a change of the length unit scales the first, not the second)."""
     fails = []
@@ -185,6 +185,12 @@ def compare(oA, oB, tr, tolU, what, max_fails=4, check_diagrams=True):
                 tol = (2 * ampB[idb] * tolmax) / div + 2 * F(oB["MaxError"]) / div
                 scale = abs(el) + abs(er)
                 if abs(vb[0] - el) > tol + Fr(1, 10 ** 8) * scale or abs(vb[1] - er) > tol + Fr(1, 10 ** 8) * scale:
+                    if merged_out is not None and vb[0] == vb[1] and el != er and abs(el - er) <= F(oB["MaxError"]) + 2 * tol \
+                            and min(abs(vb[0] - el), abs(vb[0] - er)) <= tol + Fr(1, 10 ** 8) * scale:
+                        # one value listed where the other run lists two that differ by less than run B's --error:
+                        # the implementation merges them (appendIfNotSameAsLast with the error option as tolerance)
+                        merged_out.append((idb, name, float(tfun(t))))
+                        continue
                     fails.append("%s: bar %s %s at t=%s is (%.9g | %.9g), expected (%.9g | %.9g)" % (
                         what, idb, name, float(tfun(t)), float(vb[0]), float(vb[1]), float(el), float(er)))
                     if len(fails) >= max_fails:
